@@ -1069,6 +1069,8 @@ def crosscheck_model(contract, case, res, n=10, seed=0):
             outcome = Outcome("return", value=v)
         except Exception as e:
             outcome = Outcome("raise", exc=e)
+        if outcome.kind == "raise" and isinstance(outcome.exc, OverflowError):
+            continue        # the sampled reals leave the range of machine floats (e.g. x ** 150): outside the stated float = real assumption
         if outcome.kind == "raise":
             ok = any(isinstance(outcome.exc, cls) and zeval(when if not isinstance(when, bool) else z3.BoolVal(when), zm) is not False
                      for cls, when in cx.allowed_raises)
